@@ -47,6 +47,15 @@ def spec_option_body(o):
     return o.exp if isinstance(o, Option) else o
 
 
+def spec_cut_or(f, b):
+    """f with the cut flag raised when b holds (a cut seen in a frame that is not a cut scope reaches f)"""
+    return Frame(cursor=f.cursor, ast=f.ast, cst=f.cst, cutseen=f.cutseen or b, last_node=f.last_node, alerts=f.alerts)
+
+
+def spec_with_last(f, node):
+    return Frame(cursor=f.cursor, ast=f.ast, cst=f.cst, cutseen=f.cutseen, last_node=node, alerts=f.alerts)
+
+
 def spec_with_cut(f):
     return Frame(cursor=f.cursor, ast=f.ast, cst=f.cst, cutseen=True, last_node=f.last_node, alerts=f.alerts)
 
